@@ -398,6 +398,7 @@ def geometry_evaluated(rep, repo, mod):
     n = 0
     try:
         segs = []
+        via_segs = []
         for f0 in first:
             for k in range(0, 4):
                 for rest in itertools.product(alpha, repeat=k):
@@ -416,8 +417,10 @@ def geometry_evaluated(rep, repo, mod):
                         want = spec(pts)
                         if got != want and bad is None:
                             bad = (f'DefWire.{what}', pts, got, want)
-                    if len(segs) < 40 and k >= 1:
-                        segs.append(pts)
+                    has_via = any(isinstance(q[0], str) for q in pts[1:])
+                    if k >= 1 and ((len(segs) < 20 and not has_via) or (len(via_segs) < 20 and has_via)):
+                        (via_segs if has_via else segs).append(pts)
+        segs = [x for pair in zip(segs, via_segs) for x in pair] + segs[len(via_segs):] + via_segs[len(segs):]      # lists with and without vias interleaved
         # aggregation over a net: segments on two layers, widths given or not
         for a, b in itertools.islice(itertools.combinations(segs, 2), 60):
             n += 1
